@@ -1,17 +1,13 @@
 import Pfst.TableCheck
 import Pfst.Gen.SyntaxOrder
 import Pfst.Gen.NextPrev
-/-! C14, table part 1 (separate module: the kernel evaluation takes ~20 s).  The tables are regenerated from the working
-tree on every run, so these `decide`s are re-checked against the code that is there. -/
+/-! C14, tables, first half of the shapes (the kernel evaluations are spread over four modules that build in
+parallel: C14Tables, C14TablesB, C14Covers, C14Static).  The tables are regenerated from the working tree on every run,
+so these `decide`s are re-checked against the code that is there. -/
 namespace Pfst.C14
 open Pfst
 
-/-- **NEXT is exactly "successor", PREV exactly "predecessor" in the syntax-ordered child list**, for every tabulated
-parent shape (every node class; list lengths 0..3, optional fields present/absent, None entries in `Dict.keys` and
-`arguments.kw_defaults`, every valid interleaving of ≤3 positional/starred and ≤3 keyword arguments of Call/ClassDef):
-`NEXT_FUNCS[cls, None]` answers the first element of `syntax_ordered_children`, `NEXT_FUNCS[cls, field](parent, idx)` the
-element after the child at (field, idx), None after the last; `PREV_FUNCS` the mirror image. -/
-theorem table_consistent : TableCheck.allOk Gen.SyntaxOrder.shapesEnc Gen.NextPrev.tablesEnc = true := by
+theorem table_consistent_A : TableCheck.allOk Gen.SyntaxOrder.shapesEncA Gen.NextPrev.tablesEncA = true := by
   decide +kernel
 
 end Pfst.C14
